@@ -18,6 +18,17 @@ import (
 	"golang.org/x/exp/slog"
 )
 
+// contextCause returns the reason a done context was cancelled. context.Cause
+// only knows about contexts created by the context package: for other
+// implementations (e.g. the primary context, which ends when the lease is
+// lost) it returns nil even though the context is done, so fall back to Err.
+func contextCause(ctx context.Context) error {
+	if err := context.Cause(ctx); err != nil {
+		return err
+	}
+	return ctx.Err()
+}
+
 func init() {
 	assert(unsafe.Sizeof(walIndexHdr{}) == 48, "invalid walIndexHdr size")
 	assert(unsafe.Sizeof(walCkptInfo{}) == 40, "invalid walCkptInfo size")
